@@ -8,7 +8,7 @@ from harness import build, spside, clock, world
 
 PROPERTY = 'C03'
 LEVEL = 'exploration'
-RULE = ('Hypothesis federations: 2-4 IdPs x 0-3 key descriptors (use signing/encryption/none, pool keys 1..6, keys may be shared between entities); per federation a set of '
+RULE = ('Hypothesis federations: 2-4 IdPs x 0-3 key descriptors (use signing/encryption/none, pool keys 1..6, keys may be shared between entities), the descriptors sitting in an IDPSSODescriptor, a stand-alone AttributeAuthorityDescriptor or split over both; per federation a set of '
         'messages: claimed Issuer in {each IdP, unknown entity} x actual signing key in the pool x KeyInfo in {none, signer cert, other entity\'s cert, signer RSAKeyValue, '
         'other RSAKeyValue} x level {response, assertion} x only_use_keys_in_metadata {True, False}. Non-trivial = claimed issuer does not own the key for signing, or embedded '
         'material present; distinct = distinct (federation, message).')
@@ -27,13 +27,25 @@ def case_strategy():
     msg = st.fixed_dictionaries({'issuer': st.integers(0, 4), 'key': st.sampled_from(POOL), 'keyinfo': st.sampled_from(['none', 'signer-cert', 'other-cert', 'signer-rsa', 'other-rsa', 'signer-cert']),
                                  'other': st.sampled_from(POOL), 'level': st.sampled_from(['response', 'assertion', 'both']), 'alg': st.sampled_from(['sha1', 'sha256']),
                                  'r_issuer': st.sampled_from([None, None, None, 0, 1, 2, 3, 4])})
-    return st.fixed_dictionaries({'fed': fed, 'only_md': st.booleans(), 'messages': st.lists(msg, min_size=3, max_size=8)})
+    # where an entity's key descriptors live: an IdP role descriptor, a stand-alone attribute authority, or split (IdP descriptor without keys + AA descriptor with them)
+    roles = st.lists(st.sampled_from(['idp', 'idp', 'aa', 'split']), min_size=4, max_size=4)
+    return st.fixed_dictionaries({'fed': fed, 'roles': roles, 'only_md': st.booleans(), 'messages': st.lists(msg, min_size=3, max_size=8)})
 
 
 def run(case):
     now = spside.NOW
     fed = case['fed']
-    ents = [{'entityid': IDPS[i], 'idp': {'keys': [(u, k) for u, k in kds]}} for i, kds in enumerate(fed)]
+    roles = case.get('roles') or ['idp'] * 4
+    ents = []
+    for i, kds in enumerate(fed):
+        keys = [(u, k) for u, k in kds]
+        aa = {'attribute_service': [(world.SOAP, IDPS[i] + '/aa')]}
+        if roles[i] == 'aa':
+            ents.append({'entityid': IDPS[i], 'aa': dict(aa, keys=keys)})
+        elif roles[i] == 'split':
+            ents.append({'entityid': IDPS[i], 'idp': {'keys': []}, 'aa': dict(aa, keys=keys)})
+        else:
+            ents.append({'entityid': IDPS[i], 'idp': {'keys': keys}})
     md = build.entities_xml(ents)
     opts = {'only_use_keys_in_metadata': case['only_md'], 'want_response_signed': False, 'want_assertions_signed': False, 'want_assertions_or_response_signed': True}
     sp = spside.sp_for(opts, md=md)
@@ -76,6 +88,8 @@ def run(case):
         if r_issuer != issuer:
             cls.append('response-issuer-differs')
             nt = True
+        if m['issuer'] < len(fed) and roles[m['issuer']] != 'idp':
+            cls.append('keys-in-' + roles[m['issuer']] + '-descriptor')
         if v[0] == 'accept':
             if not allowed:
                 owner = [IDPS[i] for i, kds in enumerate(fed) if any(k == m['key'] for u, k in kds)]
